@@ -69,7 +69,7 @@ SimNext == /\ nops < MaxOps
            /\ nops' = nops + 1
 SimSpec == Init /\ [][SimNext]_vars
 
-View == st
+View == <<st, nops>>      \* nops in the view: with several workers a state could otherwise be first reached on a longer path and not be expanded
 RefinesInv == Refines(st)
 WellFormedInv == WellFormed(st.m)
 NoOverflowInv == NoOverflow(st.m)
